@@ -1740,3 +1740,671 @@ func ruleAssertInhabited(c *Ctx, rule string, pkgFilter func(string) bool) {
 		c.Und(rule, "type assertions to repository types", "-", "none found")
 	}
 }
+
+// ---- C06/handler-active (also C02) -----------------------------------------------------------------------------------------
+// The routine that switches the VM to a frame's error handler assumes that the
+// frame's innermost handler still has a catch or a finally block to run.  Every
+// frame handed to it was selected by the test that skips (and pops) consumed
+// handlers - hasActiveHandler on that very frame's handler list, true edge - not
+// by the mere presence of a handler: a handler whose finally block is already
+// running has catch = finally = 0, and "jumping" to it restarts the function
+// from its first instruction with the error still pending (a callee that always
+// fails makes Run spin for ever).
+func ruleHandlerActive(c *Ctx, rule string) {
+	l := c.L
+	hte := l.Method(modPath, "VM", "handleThrownError")
+	active := l.Method(modPath, "errHandlers", "hasActiveHandler")
+	_, fEH := l.structField(modPath, "frame", "errHandlers")
+	if !c.Anchor(rule, "VM.handleThrownError / errHandlers.hasActiveHandler / frame.errHandlers", hte != nil && active != nil && fEH >= 0) {
+		return
+	}
+	// selectedActive: the frame value v is known active at the end of block b
+	selectedActive := func(v ssa.Value, b *ssa.BasicBlock) bool {
+		for _, g := range guardEdges(b) {
+			cl, ok := g.If.Cond.(*ssa.Call)
+			if !ok || cl.Call.StaticCallee() != active || !g.Truth || len(cl.Call.Args) == 0 {
+				continue
+			}
+			ld, ok := cl.Call.Args[0].(*ssa.UnOp)
+			if !ok {
+				continue
+			}
+			fa, ok := isFieldAddrOf(ld.X, modPath, "frame", fEH)
+			if !ok {
+				continue
+			}
+			if fa.X == v || exprEq(fa.X, v) {
+				return true
+			}
+		}
+		return false
+	}
+	n := 0
+	for _, ci := range l.RealCallers(hte) {
+		args := ci.Common().Args
+		if len(args) < 2 {
+			continue
+		}
+		n++
+		frame := args[1]
+		ok := true
+		var visit func(v ssa.Value, at *ssa.BasicBlock, d int)
+		seen := map[ssa.Value]bool{}
+		visit = func(v ssa.Value, at *ssa.BasicBlock, d int) {
+			if d > 4 {
+				ok = false
+				return
+			}
+			if k, isC := v.(*ssa.Const); isC && k.IsNil() {
+				return // the "not found" value, excluded by the caller's nil test
+			}
+			if phi, isPhi := v.(*ssa.Phi); isPhi {
+				if seen[v] {
+					return
+				}
+				seen[v] = true
+				for i, e := range phi.Edges {
+					visit(e, phi.Block().Preds[i], d+1)
+				}
+				return
+			}
+			// the result of a helper that searches the frames: every value it returns
+			var call *ssa.Call
+			idx := 0
+			switch x := v.(type) {
+			case *ssa.Extract:
+				call, _ = x.Tuple.(*ssa.Call)
+				idx = x.Index
+			case *ssa.Call:
+				call = x
+			}
+			if call != nil {
+				if g := call.Call.StaticCallee(); g != nil && len(g.Blocks) > 0 && funcPkgPath(g) == modPath {
+					if seen[v] {
+						return
+					}
+					seen[v] = true
+					eachInstr(g, func(ins ssa.Instruction) {
+						if r, isRet := ins.(*ssa.Return); isRet && idx < len(r.Results) {
+							visit(returnedValue(r, idx), r.Block(), d+1)
+						}
+					})
+					return
+				}
+			}
+			if !selectedActive(v, at) {
+				ok = false
+			}
+		}
+		visit(frame, ci.Block(), 0)
+		key := fnName(ci.Parent()) + " | frame handed to the handler switch"
+		if k := countKey(key); k > 1 {
+			key += fmt.Sprintf(" #%d", k)
+		}
+		c.Check(rule, key, l.Pos(ci.Pos()), ok, "selected by hasActiveHandler on the same frame",
+			"a frame is handed to the handler switch without hasActiveHandler having succeeded for that frame: its innermost handler may be a consumed one (its finally block already running), and the VM then restarts the function at its first instruction with the error still pending")
+	}
+	resetKeyCount()
+	if n == 0 {
+		c.Und(rule, "callers of handleThrownError", "-", "none found")
+	}
+}
+
+// ---- C04/decode-fresh (also C16) -------------------------------------------------------------------------------------------
+// A decoder builds the slices and maps it stores into its receiver in this
+// call: no UnmarshalBinary method re-slices or appends to storage read from its
+// receiver (`sf.Lines[:0]`).  A receiver that is a scratch value decoded into
+// repeatedly and copied (one SourceFile per file of a set) would otherwise hand
+// the same backing array to every copy: decoding the next file overwrites the
+// line table of the previous one and positions of errors move.
+func ruleDecodeFresh(c *Ctx, rule string) {
+	l := c.L
+	n := 0
+	for _, fn := range l.RepoFuncs(func(pp string) bool { return pp == encPath }) {
+		if fn.Name() != "UnmarshalBinary" || fn.Signature.Recv() == nil || len(fn.Params) == 0 || len(fn.Blocks) == 0 {
+			continue
+		}
+		recv := fn.Params[0]
+		fromRecv := func(v ssa.Value) bool {
+			for d := 0; d < 6; d++ {
+				switch x := v.(type) {
+				case *ssa.UnOp:
+					v = x.X
+				case *ssa.FieldAddr:
+					v = x.X
+				case *ssa.Field:
+					v = x.X
+				case *ssa.ChangeType:
+					v = x.X
+				case *ssa.Parameter:
+					return x == recv
+				default:
+					return false
+				}
+			}
+			return false
+		}
+		var bad []string
+		eachInstr(fn, func(ins ssa.Instruction) {
+			switch x := ins.(type) {
+			case *ssa.Slice:
+				if _, isLoad := x.X.(*ssa.UnOp); isLoad && fromRecv(x.X) {
+					bad = append(bad, l.Pos(x.Pos()))
+				}
+			case *ssa.Call:
+				if b, ok := x.Call.Value.(*ssa.Builtin); ok && b.Name() == "append" && len(x.Call.Args) > 0 {
+					if _, isLoad := x.Call.Args[0].(*ssa.UnOp); isLoad && fromRecv(x.Call.Args[0]) {
+						bad = append(bad, l.Pos(x.Pos()))
+					}
+				}
+			}
+		})
+		n++
+		c.Check(rule, fnName(fn)+" | storage of the decoded value", l.Pos(fn.Pos()), len(bad) == 0, "nothing is appended to or re-sliced from the receiver's previous storage",
+			"the decoder builds its result in storage taken from the receiver ("+strings.Join(bad, ", ")+"): values decoded one after the other into a reused receiver share one backing array, so decoding the next file overwrites the line table of the previous ones and error positions move")
+	}
+	if n == 0 {
+		c.Und(rule, "UnmarshalBinary methods", "-", "none found")
+	}
+}
+
+// ---- C16/trace-complete -------------------------------------------------------------------------------------------------------
+// The stack trace handed to the host has one entry for every position the VM
+// recorded: every StackTrace the method builds has exactly len(Trace) elements
+// (the length operand of the allocation is the length of the receiver's Trace
+// itself, not a value capped or otherwise derived from it), so the outermost
+// call statements of a deep call chain are reported like the innermost.
+func ruleTraceComplete(c *Ctx, rule string) {
+	l := c.L
+	st := l.Method(modPath, "RuntimeError", "StackTrace")
+	_, fTrace := l.structField(modPath, "RuntimeError", "Trace")
+	if !c.Anchor(rule, "RuntimeError.StackTrace / RuntimeError.Trace", st != nil && fTrace >= 0) {
+		return
+	}
+	n := 0
+	eachInstrDeep(st, 1, func(ins ssa.Instruction) {
+		ms, ok := ins.(*ssa.MakeSlice)
+		if !ok {
+			return
+		}
+		n++
+		full := false
+		// make(T, len(Trace)) or make(T, 0, len(Trace)) filled by append
+		for _, v := range []ssa.Value{ms.Len, ms.Cap} {
+			if cv, ok := v.(*ssa.Convert); ok {
+				v = cv.X
+			}
+			if cl, ok := v.(*ssa.Call); ok {
+				if b, ok := cl.Call.Value.(*ssa.Builtin); ok && b.Name() == "len" && len(cl.Call.Args) == 1 {
+					if ld, ok := cl.Call.Args[0].(*ssa.UnOp); ok {
+						if _, ok := isFieldAddrOf(ld.X, modPath, "RuntimeError", fTrace); ok {
+							full = true
+						}
+					}
+				}
+			}
+		}
+		key := fnName(ins.Parent()) + " | length of the trace built"
+		if k := countKey(key); k > 1 {
+			key += fmt.Sprintf(" #%d", k)
+		}
+		c.Check(rule, key, l.Pos(ms.Pos()), full, "len(Trace)",
+			"the stack trace is allocated with a length other than the number of recorded positions (a cap): for an error that escapes through more call sites than the cap the outermost call statements are missing from the reported trace")
+	})
+	resetKeyCount()
+	if n == 0 {
+		c.Und(rule, "RuntimeError.StackTrace | allocation", l.Pos(st.Pos()), "the method allocates no trace")
+	}
+}
+
+// ---- C01/rewrite-by-result ---------------------------------------------------------------------------------------------------
+// The optimizer rewrites the tree only by putting the result of a folding or
+// evaluating call in the place of the expression it folded: every store the
+// optimizer makes into an expression-typed field (or element) of a parser node
+// stores the result of a call (transform, evalExpr, binaryop, ...), never an
+// expression read from another node.  Moving existing sub-expressions between
+// nodes (re-associating `(x + 1) + 2` into `x + (1 + 2)`) changes what is
+// computed whenever the operator is not associative for the operand types
+// (string and array concatenation, floats).
+func ruleRewriteByResult(c *Ctx, rule string) {
+	l := c.L
+	optT := l.NamedType(modPath, "SimpleOptimizer")
+	exprT := l.NamedType(parserPath, "Expr")
+	if !c.Anchor(rule, "type SimpleOptimizer / parser.Expr", optT != nil && exprT != nil) {
+		return
+	}
+	isOpt := func(fn *ssa.Function) bool {
+		for fn.Parent() != nil {
+			fn = fn.Parent()
+		}
+		if r := fn.Signature.Recv(); r != nil {
+			t := r.Type()
+			if p, ok := t.(*types.Pointer); ok {
+				t = p.Elem()
+			}
+			return types.Identical(t, optT)
+		}
+		return false
+	}
+	inParserNode := func(addr ssa.Value) bool {
+		for d := 0; d < 4; d++ {
+			switch x := addr.(type) {
+			case *ssa.FieldAddr:
+				if p, ok := x.X.Type().Underlying().(*types.Pointer); ok {
+					if nt, ok := p.Elem().(*types.Named); ok && nt.Obj().Pkg() != nil && nt.Obj().Pkg().Path() == parserPath {
+						return true
+					}
+				}
+				addr = x.X
+			case *ssa.IndexAddr:
+				addr = x.X
+			case *ssa.UnOp:
+				addr = x.X
+			default:
+				return false
+			}
+		}
+		return false
+	}
+	var fromCall func(v ssa.Value, d int) bool
+	fromCall = func(v ssa.Value, d int) bool {
+		if d > 4 {
+			return false
+		}
+		switch x := v.(type) {
+		case *ssa.Extract:
+			_, ok := x.Tuple.(*ssa.Call)
+			return ok
+		case *ssa.Call:
+			return true
+		case *ssa.MakeInterface:
+			return fromCall(x.X, d+1)
+		case *ssa.ChangeInterface:
+			return fromCall(x.X, d+1)
+		case *ssa.TypeAssert:
+			return fromCall(x.X, d+1)
+		case *ssa.Alloc:
+			return true // a literal node built on the spot
+		case *ssa.Phi:
+			for _, e := range x.Edges {
+				if !fromCall(e, d+1) {
+					return false
+				}
+			}
+			return true
+		}
+		return false
+	}
+	n := 0
+	for _, fn := range l.RepoFuncs(func(pp string) bool { return pp == modPath }) {
+		if !isOpt(fn) {
+			continue
+		}
+		eachInstr(fn, func(ins ssa.Instruction) {
+			st, ok := ins.(*ssa.Store)
+			if !ok || !types.Identical(st.Val.Type(), exprT) || !inParserNode(st.Addr) {
+				return
+			}
+			n++
+			key := fnName(fn) + " | expression stored into a node"
+			if k := countKey(key); k > 1 {
+				key += fmt.Sprintf(" #%d", k)
+			}
+			c.Check(rule, key, l.Pos(st.Pos()), fromCall(st.Val, 0), "the stored expression is the result of a folding / evaluating call",
+				"the optimizer stores an expression taken from another place of the tree ("+describe(st.Val)+") into a node: sub-expressions are moved between nodes, which changes the result whenever the operator is not associative for the operands' types (`s + 1 + 2` on a string, float sums)")
+		})
+	}
+	resetKeyCount()
+	if n == 0 {
+		c.Und(rule, "optimizer stores into parser nodes", "-", "none found")
+	}
+}
+
+// ---- C01/shared-expr-no-rewrite ------------------------------------------------------------------------------------------------
+// Folding constants into an expression at compile time rewrites the expression
+// in place.  An expression of a const group that is repeated implicitly is
+// compiled once per member, each time in the scope of the members before it:
+// rewritten for the first member, it keeps that member's resolution of its
+// names (`const ( x = x + 1; y )` under an outer `const x = 1` gave y the value
+// of x instead of x + 1, with the optimizer only).  Two clauses: (a) every call
+// of the compile-time rewriting entry is guarded by a flag field of the
+// compiler being zero; (b) the function that re-uses a loop-carried expression
+// for later members raises that flag.
+func ruleSharedExprNoRewrite(c *Ctx, rule string) {
+	l := c.L
+	opt := l.Method(modPath, "Compiler", "optimizeExpr")
+	cs, _ := l.structField(modPath, "Compiler", "file")
+	exprT := l.NamedType(parserPath, "Expr")
+	if !c.Anchor(rule, "Compiler.optimizeExpr / parser.Expr", opt != nil && cs != nil && exprT != nil) {
+		return
+	}
+	flags := map[int]bool{}
+	n := 0
+	for _, ci := range l.RealCallers(opt) {
+		n++
+		guard := -1
+		for _, g := range guardEdges(ci.Block()) {
+			bo, ok := g.If.Cond.(*ssa.BinOp)
+			if !ok || (bo.Op != token.EQL && bo.Op != token.NEQ) {
+				continue
+			}
+			for _, pr := range [][2]ssa.Value{{bo.X, bo.Y}, {bo.Y, bo.X}} {
+				k, ok := pr[1].(*ssa.Const)
+				if !ok || k.Value == nil || !(k.Value.ExactString() == "0" || k.Value.ExactString() == "false") {
+					continue
+				}
+				ld, ok := pr[0].(*ssa.UnOp)
+				if !ok {
+					continue
+				}
+				fa, ok := ld.X.(*ssa.FieldAddr)
+				if !ok {
+					continue
+				}
+				if p, ok := fa.X.Type().Underlying().(*types.Pointer); ok && types.Identical(p.Elem().Underlying(), cs) && (bo.Op == token.EQL) == g.Truth {
+					guard = fa.Field
+				}
+			}
+		}
+		if guard >= 0 {
+			flags[guard] = true
+		}
+		key := fnName(ci.Parent()) + " | compile-time rewriting of an expression"
+		if k := countKey(key); k > 1 {
+			key += fmt.Sprintf(" #%d", k)
+		}
+		c.Check(rule, key, l.Pos(ci.Pos()), guard >= 0, "only while the compiler's shared-expression flag is zero",
+			"the compile-time folder rewrites the expression in place without the compiler's shared-expression flag being tested: an implicitly repeated expression of a const group is rewritten for its first member and later members are compiled from the rewritten tree (the optimizer changes `const ( x = x + 1; y )`)")
+	}
+	resetKeyCount()
+	// (b) functions that pass a loop-carried expression to a compile call
+	for _, fn := range l.RepoFuncs(func(pp string) bool { return pp == modPath }) {
+		var carried *ssa.Phi
+		eachInstr(fn, func(ins ssa.Instruction) {
+			phi, ok := ins.(*ssa.Phi)
+			if !ok || !types.Identical(phi.Type(), exprT) || carried != nil {
+				return
+			}
+			// loop-carried: an incoming edge from a block the phi's block dominates
+			for i := range phi.Edges {
+				if i < len(phi.Block().Preds) && phi.Block().Dominates(phi.Block().Preds[i]) {
+					if k, isC := phi.Edges[i].(*ssa.Const); isC && k.IsNil() {
+						continue
+					}
+					carried = phi
+				}
+			}
+		})
+		if carried == nil {
+			continue
+		}
+		// does the carried value reach a call (through phis)?
+		used := false
+		seen := map[ssa.Value]bool{}
+		var walk func(v ssa.Value, d int)
+		walk = func(v ssa.Value, d int) {
+			if seen[v] || d > 5 || v.Referrers() == nil {
+				return
+			}
+			seen[v] = true
+			for _, r := range *v.Referrers() {
+				switch x := r.(type) {
+				case *ssa.Phi:
+					walk(x, d+1)
+				case *ssa.Store:
+					// stored into a slice literal handed to a call
+					used = true
+				case ssa.CallInstruction:
+					used = true
+				}
+			}
+		}
+		walk(carried, 0)
+		if !used {
+			continue
+		}
+		n++
+		raises := false
+		eachInstr(fn, func(ins ssa.Instruction) {
+			st, ok := ins.(*ssa.Store)
+			if !ok {
+				return
+			}
+			fa, ok := st.Addr.(*ssa.FieldAddr)
+			if !ok || !flags[fa.Field] {
+				return
+			}
+			if p, ok := fa.X.Type().Underlying().(*types.Pointer); !ok || !types.Identical(p.Elem().Underlying(), cs) {
+				return
+			}
+			if k, isC := st.Val.(*ssa.Const); isC && k.Value != nil && (k.Value.ExactString() == "0" || k.Value.ExactString() == "false") {
+				return
+			}
+			raises = true
+		})
+		c.Check(rule, fnName(fn)+" | an expression carried over to later members", l.Pos(carried.Pos()), raises, "the function raises the shared-expression flag",
+			"the function compiles one expression node for several members of a declaration group but never raises the flag that stops compile-time rewriting: the node is rewritten in place while the first member is compiled")
+	}
+	if n == 0 {
+		c.Und(rule, "compile-time rewriting", "-", "no call of the compile-time folder found")
+	}
+}
+
+// ---- C02/catch-var-fresh ----------------------------------------------------------------------------------------------------
+// The catch variable is declared by the try statement, but the instructions
+// that define it sit at the end of the try body and are skipped when an error
+// is thrown.  On the catch path the variable's slot may therefore still hold
+// the cell of a captured variable of a scope that was left (slots are reused),
+// and OpSetLocal writes THROUGH such a cell.  The function that emits
+// OpSetupCatch binds the error with OpDefineLocal (a fresh variable per
+// execution of the catch clause); OpSetLocal is emitted only for a symbol known
+// to be assigned already (a variable of the try body with the same name).
+func ruleCatchVarFresh(c *Ctx, rule string) {
+	l := c.L
+	emit := l.Method(modPath, "Compiler", "emit")
+	opCatch, ok1 := constOf(l, modPath, "OpSetupCatch")
+	opSetL, ok2 := constOf(l, modPath, "OpSetLocal")
+	_, fAssigned := l.structField(modPath, "Symbol", "Assigned")
+	if !c.Anchor(rule, "Compiler.emit / OpSetupCatch / OpSetLocal / Symbol.Assigned", emit != nil && ok1 && ok2 && fAssigned >= 0) {
+		return
+	}
+	n := 0
+	for _, fn := range l.RepoFuncs(func(pp string) bool { return pp == modPath }) {
+		emitsCatch := false
+		var sets []*ssa.Call
+		eachInstr(fn, func(ins ssa.Instruction) {
+			cl, ok := ins.(*ssa.Call)
+			if !ok || cl.Call.StaticCallee() != emit || len(cl.Call.Args) < 3 {
+				return
+			}
+			if k, ok := constInt64(cl.Call.Args[2]); ok {
+				if k == opCatch {
+					emitsCatch = true
+				}
+				if k == opSetL {
+					sets = append(sets, cl)
+				}
+			}
+		})
+		if !emitsCatch {
+			continue
+		}
+		n++
+		var bad []string
+		for _, s := range sets {
+			guarded := false
+			for _, g := range guardEdges(s.Block()) {
+				if ld, ok := g.If.Cond.(*ssa.UnOp); ok && ld.Op == token.MUL && g.Truth {
+					if _, ok := isFieldAddrOf(ld.X, modPath, "Symbol", fAssigned); ok {
+						guarded = true
+					}
+				}
+			}
+			if !guarded {
+				bad = append(bad, l.Pos(s.Pos()))
+			}
+		}
+		c.Check(rule, fnName(fn)+" | binding of the catch variable", l.Pos(fn.Pos()), len(bad) == 0, "OpDefineLocal, or OpSetLocal for a symbol known to be assigned",
+			"the catch clause binds the error with OpSetLocal ("+strings.Join(bad, ", ")+") although the variable's definition is skipped on the path that throws: the slot can still hold the cell of a captured variable of a closed scope, and the error is written through it into that variable; closures created in the catch body of a loop also share one variable")
+	}
+	if n == 0 {
+		c.Und(rule, "emitter of OpSetupCatch", "-", "no function emits OpSetupCatch")
+	}
+}
+
+// ---- C13/disable-uncache -----------------------------------------------------------------------------------------------------
+// Resolve caches the symbol of a builtin in the root table's store the first
+// time the name is used, and a cached symbol is returned without looking at the
+// disabled set again.  DisableBuiltin therefore removes the cached symbol of
+// each name it disables (a delete on the store of the table whose disabled set
+// it updates, with the same key): a builtin disabled after a fragment of the
+// session used it is unreachable for the fragments that follow.
+func ruleDisableUncache(c *Ctx, rule string) {
+	l := c.L
+	dis := l.Method(modPath, "SymbolTable", "DisableBuiltin")
+	_, fDis := l.structField(modPath, "SymbolTable", "disabledBuiltins")
+	_, fStore := l.structField(modPath, "SymbolTable", "store")
+	if !c.Anchor(rule, "SymbolTable.DisableBuiltin / disabledBuiltins / store", dis != nil && fDis >= 0 && fStore >= 0) {
+		return
+	}
+	// the alternative design: Resolve tests the disabled set also when the name
+	// was found in the store (the test is not confined to the store-miss path)
+	resolveRechecks := false
+	if res, isDis := l.Method(modPath, "SymbolTable", "Resolve"), l.Method(modPath, "SymbolTable", "isBuiltinDisabled"); res != nil && isDis != nil {
+		eachInstr(res, func(ins ssa.Instruction) {
+			cl, ok := ins.(*ssa.Call)
+			if !ok || cl.Call.StaticCallee() != isDis {
+				return
+			}
+			missOnly := false
+			for _, g := range guardEdges(cl.Block()) {
+				if ex, ok := g.If.Cond.(*ssa.Extract); ok && ex.Index == 1 {
+					if _, isLookup := ex.Tuple.(*ssa.Lookup); isLookup && !g.Truth {
+						missOnly = true
+					}
+				}
+				if phi, ok := g.If.Cond.(*ssa.Phi); ok && !g.Truth {
+					_ = phi
+					missOnly = true // `ok` merged from the parent's answer: still the not-found path
+				}
+			}
+			if !missOnly {
+				resolveRechecks = true
+			}
+		})
+	}
+	n := 0
+	eachInstrDeep(dis, 1, func(ins ssa.Instruction) {
+		mu, ok := ins.(*ssa.MapUpdate)
+		if !ok {
+			return
+		}
+		ld, ok := mu.Map.(*ssa.UnOp)
+		if !ok {
+			return
+		}
+		fa, ok := isFieldAddrOf(ld.X, modPath, "SymbolTable", fDis)
+		if !ok {
+			return
+		}
+		n++
+		found := false
+		eachInstr(ins.Parent(), func(x ssa.Instruction) {
+			cl, ok := x.(*ssa.Call)
+			if !ok {
+				return
+			}
+			b, ok := cl.Call.Value.(*ssa.Builtin)
+			if !ok || b.Name() != "delete" || len(cl.Call.Args) != 2 {
+				return
+			}
+			if !(cl.Call.Args[1] == mu.Key || exprEq(cl.Call.Args[1], mu.Key)) {
+				return
+			}
+			ml, ok := cl.Call.Args[0].(*ssa.UnOp)
+			if !ok {
+				return
+			}
+			sfa, ok := isFieldAddrOf(ml.X, modPath, "SymbolTable", fStore)
+			if ok && (sfa.X == fa.X || exprEq(sfa.X, fa.X)) {
+				found = true
+			}
+		})
+		if !found && resolveRechecks {
+			c.Ok(rule, fnName(ins.Parent())+" | a name is added to the disabled set", l.Pos(mu.Pos()), "Resolve tests the disabled set for names found in the store as well")
+			return
+		}
+		c.Check(rule, fnName(ins.Parent())+" | a name is added to the disabled set", l.Pos(mu.Pos()), found, "its cached symbol is deleted from the same table's store",
+			"a name is disabled without its cached builtin symbol being removed from the table: Resolve keeps returning the symbol cached while the builtin was enabled, so a builtin disabled in the middle of a session (or between two compilations sharing a symbol table) stays reachable")
+	})
+	if n == 0 {
+		c.Und(rule, "SymbolTable.DisableBuiltin | disabled set update", l.Pos(dis.Pos()), "DisableBuiltin does not update the disabled set")
+	}
+}
+
+// ---- C06/frame-claim-atomic (also C07) ---------------------------------------------------------------------------------------
+// The call routine reports a frame overflow as an ordinary error, which the
+// calling script may catch.  Once the routine has advanced the frame index it
+// cannot fail any more: no return of a non-nil error is reachable from the
+// increment.  An overflow reported after the increment leaves the index one too
+// high; the catching function's return then takes a cleared frame for its
+// parent (nil function: a Go panic without recovery, wrong counts with it).
+func ruleFrameClaimAtomic(c *Ctx, rule string, vf *vmFacts) {
+	l := c.L
+	fFI := vf.field("frameIndex")
+	if !c.Anchor(rule, "VM.frameIndex", fFI >= 0) {
+		return
+	}
+	n := 0
+	for _, fn := range l.RepoFuncs(func(pp string) bool { return pp == modPath }) {
+		res := fn.Signature.Results()
+		if res.Len() == 0 || !isErrorType(res.At(res.Len()-1).Type()) {
+			continue
+		}
+		eachInstr(fn, func(ins ssa.Instruction) {
+			st, ok := ins.(*ssa.Store)
+			if !ok {
+				return
+			}
+			fa, ok := st.Addr.(*ssa.FieldAddr)
+			if !ok || fa.Field != fFI {
+				return
+			}
+			if p, ok := fa.X.Type().Underlying().(*types.Pointer); !ok || !types.Identical(p.Elem().Underlying(), vf.vmS) {
+				return
+			}
+			bo, ok := st.Val.(*ssa.BinOp)
+			if !ok || bo.Op != token.ADD {
+				return
+			}
+			if k, ok := bo.Y.(*ssa.Const); !ok || k.Value == nil || k.Value.ExactString() != "1" {
+				return
+			}
+			// an increment of the index itself (not `index + 1` of a search result)
+			if ld, ok := bo.X.(*ssa.UnOp); !ok || ld.Op != token.MUL {
+				return
+			} else if fa2, ok := ld.X.(*ssa.FieldAddr); !ok || fa2.Field != fFI || !(fa2.X == fa.X || exprEq(fa2.X, fa.X)) {
+				return
+			}
+			n++
+			bad, ok2 := mustPassBefore(ins, func(ssa.Instruction) bool { return false }, func(x ssa.Instruction) bool {
+				r, isRet := x.(*ssa.Return)
+				if !isRet || len(r.Results) == 0 {
+					return false
+				}
+				v := returnedValue(r, len(r.Results)-1)
+				k, isC := v.(*ssa.Const)
+				return !(isC && k.IsNil())
+			})
+			where := ""
+			if bad != nil {
+				where = l.Pos(bad.Pos())
+			}
+			c.Check(rule, fnName(fn)+" | frame index advanced", l.Pos(st.Pos()), ok2, "no error return is reachable after the increment",
+				"the routine can return an error (at "+where+") after it advanced the frame index: a frame overflow caught by the calling script leaves the index one too high, and the catching function's return takes a cleared frame for its parent (nil dereference without recovery; a second, spurious catch with it)")
+		})
+	}
+	if n == 0 {
+		c.Und(rule, "increment of VM.frameIndex in an error-returning routine", "-", "none found")
+	}
+}
